@@ -90,6 +90,10 @@ var settings = []setting{
 	{"V2(faraway=0.4,push=0.05)", mkV2(func(c int) *dc.DualContouringV2 { return dc.NewDualContouringV2(0.4, 0.05, 0, 1, 1e-4, 1000, c) }), 1e-4},
 	{"V2(faraway=0.499999,push=0)", mkV2(func(c int) *dc.DualContouringV2 { return dc.NewDualContouringV2(0.499999, 0, 0, 1, 1e-4, 1000, c) }), 1e-4},
 	{"V2(faraway=0.3,push=1e-4)", mkV2(func(c int) *dc.DualContouringV2 { return dc.NewDualContouringV2(0.3, 1e-4, 0, 1, 1e-4, 1000, c) }), 1e-4},
+	// "you may reduce max steps" (NewDualContouringDefault): a ray march that runs out of steps, or creeps with
+	// a small step scale, falls back to locating the crossing by sampling the edge
+	{"V2(maxsteps=3)", mkV2(func(c int) *dc.DualContouringV2 { return dc.NewDualContouringV2(0.499999, 0.01, 0, 1, 1e-4, 3, c) }), 1e-4},
+	{"V2(stepscale=0.2,maxsteps=8)", mkV2(func(c int) *dc.DualContouringV2 { return dc.NewDualContouringV2(0.45, 0.01, 0, 0.2, 1e-4, 8, c) }), 1e-4},
 }
 
 func sameSeq(a, b []*sdf.Triangle3) bool {
@@ -111,7 +115,7 @@ func TestDualContouring(t *testing.T) {
 	rapid.Check(t, func(t *rapid.T) {
 		st := rapid.SampledFrom(settings).Draw(t, "setting")
 		S := rapid.SampledFrom([]float64{1, 10}).Draw(t, "scale")
-		kind := rapid.SampledFrom([]string{"exact", "exact", "csg", "squashed", "aligned"}).Draw(t, "kind")
+		kind := rapid.SampledFrom([]string{"exact", "exact", "csg", "squashed", "aligned", "squashed"}).Draw(t, "kind")
 		var n *shape.Node
 		minScale := 1.0
 		var fixedBox *sdf.Box3
@@ -161,7 +165,7 @@ func TestDualContouring(t *testing.T) {
 			k := []float64{g.LogUniform(t, "kx", 0.3, 3), g.LogUniform(t, "ky", 0.3, 3), g.LogUniform(t, "kz", 0.3, 3)}
 			minScale = math.Min(k[0], math.Min(k[1], k[2]))
 			n = &shape.Node{Op: "nuscale3", P: k, K: []*shape.Node{shape.GenExact3Smooth(t, S, rapid.IntRange(0, 1).Draw(t, "depth"), true)}}
-			if rapid.Bool().Draw(t, "placed") {
+			if rapid.IntRange(0, 2).Draw(t, "placed") == 0 {
 				n = shape.Place3(t, n, S)
 			}
 		} else {
